@@ -16,6 +16,9 @@ MODES = ["1", "L", "LA", "P", "PA", "RGB", "RGBA", "CMYK", "HSV"]
 def make_image(spec):
     """Deterministic image from a spec: mode, size, seed, kind; "frames": n > 1 gives an
     animated GIF (opened from memory) whose first frame is the image described."""
+    if spec.get("pages"):  # (additive) a multi-frame file whose frames differ in mode / content
+        import io
+        return Image.open(io.BytesIO(encode_pages(spec)))
     n = spec.get("frames", 1)
     if n > 1:
         import io
@@ -26,6 +29,21 @@ def make_image(spec):
         buf.seek(0)
         return Image.open(buf)
     return make_still(spec)
+
+
+def encode_pages(spec):
+    """Bytes of a multi-frame file whose frames are the stills spec["pages"] (one size; the modes
+    may differ): "container" = "tiff" (lossless, every page keeps its own mode: RGB / RGBA / LA /
+    L / 1 / CMYK) or "gif" (first frame P, possibly with a transparent index; Pillow hands out the
+    later frames as RGB / RGBA)."""
+    import io
+    pages = [make_still(p) for p in spec["pages"]]
+    buf = io.BytesIO()
+    if spec.get("container", "tiff") == "gif":
+        pages[0].save(buf, format="GIF", save_all=True, append_images=pages[1:], duration=50, loop=0, disposal=2)
+    else:
+        pages[0].save(buf, format="TIFF", save_all=True, append_images=pages[1:])
+    return buf.getvalue()
 
 
 def make_still(spec):
@@ -156,12 +174,168 @@ class _Raiser:
         return False
 
 
+# ---------------------------------------------------------------- sequences over instances
+# (additive: only used when a step of a session has the key "inst")  The case carries
+# "instances": a list of {"cls": "block" | "sub" | "subsub" | "kitty" | "iterm2", "img": image spec
+# (possibly multi-frame, see encode_pages), "source": "pil" | "file", "cells": [w, h]}; a step
+# addresses one of them with "inst": k and may carry "seek": n (image.seek(n) first), "term_bg" /
+# "on_kitty" (the environment at that moment), "want_source_pixels", and via = "iter" with
+# "frames": [0, ...] (one ImageIterator; consecutive numbers = next(), others = seek() + next();
+# reported as {"multi": [one result per frame]}).  Source pixels are those of the frame the DRIVER
+# selected, decoded afresh (never through the instance under test).
+
+
+class SubBlockImage(BlockImage):
+    """A subclass of the block style (class-level state is per class or shared with the parent)."""
+
+
+class SubSubBlockImage(SubBlockImage):
+    pass
+
+
+SEQ_CLASSES = {"block": BlockImage, "sub": SubBlockImage, "subsub": SubSubBlockImage,
+               "kitty": KittyImage, "iterm2": ITerm2Image}
+
+
+class _Instances:
+    def __init__(self, case):
+        self.specs = case.get("instances", [])
+        self.objs, self.paths, self.pos, self.nf, self.tmp = {}, {}, {}, {}, None
+
+    def _file(self, k):
+        import os
+        import tempfile
+        spec = self.specs[k]["img"]
+        if k not in self.paths:
+            if self.tmp is None:
+                self.tmp = tempfile.mkdtemp(prefix="verif_seq_")
+            if spec.get("pages"):
+                data, ext = encode_pages(spec), spec.get("container", "tiff")
+            else:
+                import io
+                buf = io.BytesIO()
+                make_image(spec).save(buf, format="PNG")
+                data, ext = buf.getvalue(), "png"
+            self.paths[k] = os.path.join(self.tmp, f"inst{k}.{ext}")
+            with open(self.paths[k], "wb") as f:
+                f.write(data)
+        return self.paths[k]
+
+    def get(self, k):
+        if k not in self.objs:
+            spec = self.specs[k]
+            cls = SEQ_CLASSES[spec.get("cls", "block")]
+            w, h = spec["cells"]
+            if spec.get("source") == "file":
+                self.objs[k] = cls.from_file(self._file(k), width=w, height=h)
+            else:
+                self.objs[k] = cls(make_image(spec["img"]), width=w, height=h)
+            self.pos[k] = 0
+        return self.objs[k]
+
+    def fresh(self, k):
+        """A new decode of instance k's source, independent of the instance under test."""
+        spec = self.specs[k]
+        return Image.open(self._file(k)) if spec.get("source") == "file" else make_image(spec["img"])
+
+    def n_frames(self, k):
+        if k not in self.nf:
+            self.nf[k] = getattr(self.fresh(k), "n_frames", 1)
+        return self.nf[k]
+
+    def frame_pixels(self, k, n):
+        im = self.fresh(k)
+        if getattr(im, "n_frames", 1) > 1:
+            im.seek(n)
+        return im.mode, im.info.get("transparency") is not None, [list(p) for p in im.convert("RGBA").getdata()]
+
+    def cleanup(self):
+        import shutil
+        for o in self.objs.values():
+            try:
+                o.close()
+            except Exception:  # noqa: BLE001
+                pass
+        if self.tmp:
+            shutil.rmtree(self.tmp, ignore_errors=True)
+
+
+def _seq_env(case, step):
+    bg = step.get("term_bg", case.get("term_bg"))
+    tests.set_fg_bg_colors(None, tuple(bg) if bg else None)
+    if tests.is_on_kitty != bool(step.get("on_kitty", case.get("on_kitty", False))):
+        tests.toggle_is_on_kitty()
+
+
+def _seq_result(res, insts, k, cur, step, captured):
+    res["frame"], res["tell"], res["cls"] = insts.pos[k], cur.tell(), type(cur).__name__
+    if isinstance(cur, BlockImage) and "data" in captured:
+        im2, rgb, a = captured["data"]
+        res["alpha_mode"] = im2.mode == "RGBA"
+        res["rgb"] = [list(p) for p in rgb]
+        res["a"] = list(a)
+        res["render_px"] = list(cur._get_render_size())
+    if step.get("want_source_pixels"):
+        res["frame_mode"], res["frame_ptrans"], res["src"] = insts.frame_pixels(k, insts.pos[k])
+        res["src_size"] = list(insts.fresh(k).size)
+    return res
+
+
+def _run_iter(insts, k, cur, step, captured):
+    """One ImageIterator over instance k: the frames asked for, in the order asked for."""
+    from term_image.image import ImageIterator
+    nf = insts.n_frames(k)
+    if nf < 2:  # (the encoder merged identical frames: not animated, nothing to iterate)
+        return {"multi": []}
+    it = ImageIterator(cur, step.get("repeat", 1), step.get("spec", ""), step.get("cached", False))
+    multi, prev = [], None
+    try:
+        for idx, f in enumerate(step["frames"]):
+            f = 0 if idx == 0 else f % nf
+            captured.clear()
+            try:
+                if idx and f != prev + 1:
+                    it.seek(f)
+                out = next(it)
+            except BaseException as e:  # noqa: BLE001
+                multi.append({"error": f"{type(e).__name__}: {e}", "frame": f})
+                break
+            insts.pos[k] = prev = f
+            multi.append(_seq_result({"out": out, "rendered_size": list(cur.rendered_size)}, insts, k, cur, step, captured))
+    finally:
+        it.close()
+    return {"multi": multi}
+
+
 def run_session(case, cls, image, captured):
+    insts = _Instances(case)
+    try:
+        return _run_session(case, cls, image, captured, insts)
+    finally:
+        insts.cleanup()
+
+
+def _run_session(case, cls, primary, captured, insts):
     import builtins
     from asyncfault import AsyncFault
     style = case["style"]
     results = []
     for step in case["session"]:
+        image, k = primary, step.get("inst")
+        if k is not None:
+            try:
+                image = insts.get(k)
+                _seq_env(case, step)
+                if step.get("seek") is not None:
+                    insts.pos[k] = step["seek"] % insts.n_frames(k)
+                    image.seek(insts.pos[k])
+                if step.get("via") == "iter":
+                    _apply_size(image, step.get("size"))
+                    results.append(_run_iter(insts, k, image, step, captured))
+                    continue
+            except Exception as e:  # noqa: BLE001
+                results.append({"error": f"{type(e).__name__}: {e}"})
+                continue
         _apply_size(image, step.get("size"))
         via = step.get("via", "renderer")
         spec = step.get("spec", "")
@@ -175,7 +349,7 @@ def run_session(case, cls, image, captured):
                 k = fault["async"].get("k")
                 if k is None:
                     # counting run on a fresh instance with the same size setting
-                    probe = cls(make_image(case["img"]))
+                    probe = type(image)(make_image(case["img"] if k is None else insts.specs[k]["img"]))
                     sz = image.size
                     if isinstance(sz, tuple):
                         probe.set_size(width=sz[0], height=sz[1])
@@ -213,6 +387,9 @@ def run_session(case, cls, image, captured):
                 results.append({"error": f"{type(e).__name__}: {e}", **info})
             continue
         res = {"out": out, "rendered_size": list(image.rendered_size), **info}
+        if k is not None:
+            results.append(_seq_result(res, insts, k, image, step, captured))
+            continue
         if style == "block" and "data" in captured:
             im2, rgb, a = captured["data"]
             res["alpha_mode"] = im2.mode == "RGBA"
